@@ -266,6 +266,7 @@ def _run_honest(cfg, prefix):
     env = Env(prefix)
     with vos.fresh(env.sched) as world:
         env.arm(world, cfg.get('split', False))
+        world.urandom_prefix = bytes(cfg.get('chal_prefix', ()))
         addr, l, c = env.session()
         lfd, cfd = l.fileno(), c.fileno()
         res = {}
@@ -831,6 +832,17 @@ def items(tier):
             out.append(('dfs', 'a-honest-x-honest-nul-extended-key',
                         dict(kind='honest', size=size, variant='nulpad',
                              holder=holder, split=False), UNBOUNDED))
+    # "whatever the challenge bytes": every value of the challenge's first
+    # byte, and challenges that begin with the protocol's own markers
+    specials = [b'#CHALLENGE#', b'#CHALLENGE##CHALLENGE#', b'CHALLENGE',
+                b'##', b'#C', b'#WELCOME#', b'#FAILURE#', b'\x00\x00',
+                b'\xff' * 8]
+    prefixes = [bytes([b]) for b in range(256)] + specials
+    for variant in ('equal', 'flip'):
+        out.append(('table', 'a-challenge-bytes',
+                    [dict(kind='honest', size=16, variant=variant,
+                          holder='listener', split=False,
+                          chal_prefix=list(p)) for p in prefixes]))
     for role in ('listener', 'client'):
         for size in SIZES:
             scripts = list(itertools.product(ALPHABET, repeat=3))
